@@ -5,11 +5,14 @@ import (
 	"bytes"
 	"crypto/sha256"
 	"encoding/hex"
+	"errors"
 	"fmt"
 	"os"
 	"os/exec"
 	"path/filepath"
 	"strings"
+	"syscall"
+	"time"
 
 	minify "github.com/tdewolff/minify/v2"
 	"github.com/tdewolff/minify/v2/js"
@@ -56,7 +59,11 @@ func racePass(c *core.Check) {
 		cmd.Env = append(os.Environ(), "GORACE=halt_on_error=0 exitcode=66")
 		var out bytes.Buffer
 		cmd.Stdout, cmd.Stderr = &out, &out
-		err := cmd.Run()
+		err := runStallWatched(cmd, 40*time.Second)
+		if err == errStalled {
+			c.Fail(core.Failure{Family: "free-race-pass", Input: fmt.Sprintf("8 goroutines x %d iterations, GOMAXPROCS=%d", iters, procs), Kind: "deadlock", What: "the free-running harness stopped consuming processor time for 40 s with calls still pending (all goroutines blocked): " + tailStr(out.String())})
+			continue
+		}
 		runs += 3 * 8 * iters
 		c.Count(uint64(3 * 8 * iters))
 		text := out.String()
@@ -79,6 +86,56 @@ func racePass(c *core.Check) {
 		}
 	}
 	c.Extra["race_pass"] = fmt.Sprintf("free-running -race build of the same call alphabet: 8 goroutines x %d iterations x 3 registries (shared option structs with non-default options, with zero options, minify.Default) at GOMAXPROCS 1,4,16 = %d calls (sampling companion, not exhaustive)", iters, runs)
+}
+
+var errStalled = errors.New("stalled")
+
+// runStallWatched runs the command and kills it when it has consumed no processor time at all for the given span while still
+// alive: a process whose goroutines all wait for each other. (Processor time, not wall time: a slow machine delays the harness
+// but does not stop its clock of consumed time.) SIGQUIT first, so that the Go runtime prints the goroutine stacks.
+func runStallWatched(cmd *exec.Cmd, span time.Duration) error {
+	if err := cmd.Start(); err != nil {
+		return err
+	}
+	done := make(chan error, 1)
+	go func() { done <- cmd.Wait() }()
+	cpu := func() int64 {
+		b, err := os.ReadFile(fmt.Sprintf("/proc/%d/stat", cmd.Process.Pid))
+		if err != nil {
+			return -1
+		}
+		f := strings.Fields(string(b[bytes.LastIndexByte(b, ')')+1:]))
+		if len(f) < 14 {
+			return -1
+		}
+		var u, k int64
+		fmt.Sscan(f[11], &u)
+		fmt.Sscan(f[12], &k)
+		return u + k // clock ticks of user and system time
+	}
+	var hist []int64 // one sample per second
+	t := time.NewTicker(time.Second)
+	defer t.Stop()
+	for {
+		select {
+		case err := <-done:
+			return err
+		case <-t.C:
+			hist = append(hist, cpu())
+			n := int(span / time.Second)
+			// fewer than 3 clock ticks (30 ms) of processor time in the whole span: only the runtime's idle bookkeeping is left
+			if len(hist) > n && hist[len(hist)-1] >= 0 && hist[len(hist)-1]-hist[len(hist)-1-n] < 3 {
+				cmd.Process.Signal(syscall.SIGQUIT)
+				select {
+				case <-done:
+				case <-time.After(5 * time.Second):
+					cmd.Process.Kill()
+					<-done
+				}
+				return errStalled
+			}
+		}
+	}
 }
 
 func tailStr(s string) string {
@@ -157,6 +214,38 @@ func historyIndependence(c *core.Check) {
 			}
 		}
 	}
+	// external commands registered with AddCmd: the placeholders $in and $out of the registered command are filled in per call;
+	// every sequence of <=3 calls with different inputs over the four ways a command can take its input and deliver its output
+	// must give each call its own input back
+	{
+		mk := func() *minify.M {
+			m := minify.New()
+			m.AddCmd("x/pipe", exec.Command("cat"))
+			m.AddCmd("x/in", exec.Command("cat", "$in"))
+			m.AddCmd("x/out", exec.Command("sh", "-c", "cat > $out"))
+			m.AddCmd("x/inout", exec.Command("cp", "$in.txt", "$out.txt"))
+			return m
+		}
+		types := []string{"x/pipe", "x/in", "x/out", "x/inout"}
+		inputs := []string{"first", "second one", "3"}
+		seq := core.Sequences{K: len(types) * len(inputs), MaxLen: 3}
+		c.Family("command-minifiers").Bound = fmt.Sprintf("all sequences of <=3 calls over %d command kinds x %d inputs on one registry", len(types), len(inputs))
+		for i := uint64(1); i < seq.Count(); i++ {
+			m := mk()
+			var hist []string
+			for _, k := range seq.At(i, nil) {
+				typ, in := types[k/len(inputs)], inputs[k%len(inputs)]
+				out, err := m.String(typ, in)
+				hist = append(hist, typ+":"+in)
+				c.Count(1)
+				c.AddFamily("command-minifiers", 1, 0)
+				if err != nil || out != in {
+					c.Fail(core.Failure{Family: "command-minifiers", Input: strings.Join(hist, " ; "), Kind: "state-survives-call", What: fmt.Sprintf("call %d (%s with input %q) returned %q, %v", len(hist), typ, in, out, err)})
+					break
+				}
+			}
+		}
+	}
 	// repeated calls through the shared-option registry: k-th repetition equals the first
 	sh := calls.New()
 	first := make([]string, len(calls.Alphabet))
@@ -231,6 +320,13 @@ func crossProcess(c *core.Check) {
 
 // Run executes C13.
 func Run(c *core.Check) {
+	// command minifiers create temporary files: they go to a directory of this run, which is removed at the end whatever the
+	// tree under test does with them
+	if scratch, err := os.MkdirTemp("", "verif-cmd-"); err == nil {
+		old := os.Getenv("TMPDIR")
+		os.Setenv("TMPDIR", scratch)
+		defer func() { os.Setenv("TMPDIR", old); os.RemoveAll(scratch) }()
+	}
 	c.Rule = "every multiset of N=2 (thorough: also N=3) calls from an 11-call alphabet (Minify/Bytes/String/Reader/Writer/Match over all media types, documents whose embedded content re-enters the registry, shared non-default option structs) and of the 5-call alphabet on the package-level minify.Default registry, all interleavings at every synchronisation operation up to the preemption bound; oracle: each call returns its sequential result, no deadlock, no call ever finds a lock held by another call, option structs unchanged; every call alone leaves every field (also unexported ones) of the registered option structs untouched. Companions (reported separately, sampling): free-running -race pass, history independence over all ordered pairs of corpus documents, cross-process digest"
 	c.Assumptions = []string{"cooperative scheduler preempts only at hooked operations; data races in windows without synchronisation are only found by the sampling -race companion", "map iteration order is sampled by repeated processes, not enumerated"}
 	vsrun.Explore(c, "c13")
